@@ -33,44 +33,100 @@ impl Rng {
 }
 
 pub const GUARD: usize = 256;
+const PAGE: usize = 4096;
+
+/// 0 = heap buffers with canaries; 1 = the window ENDS at an inaccessible page (64-byte alignment permitting);
+/// 2 = the window STARTS right after an inaccessible page.  Selected by the environment variable VERIF_GUARD (C17).
+pub fn guard_mode() -> u8 {
+    static MODE: std::sync::OnceLock<u8> = std::sync::OnceLock::new();
+    *MODE.get_or_init(|| std::env::var("VERIF_GUARD").ok().and_then(|v| v.parse().ok()).unwrap_or(0))
+}
+
+enum Backing {
+    Heap(Vec<u8>),
+    /// [guard page][writable span][guard page]; base = start of the first guard page
+    Map { base: *mut u8, total: usize, span: usize },
+}
 
 /// An exact-size, 64-byte-aligned window inside a larger allocation whose every other byte is a
-/// seeded canary.  The whole allocation (window included) starts out as garbage.
+/// seeded canary.  The whole allocation (window included) starts out as garbage.  In guard mode the
+/// allocation is bracketed by PROT_NONE pages so that an out-of-bounds READ faults as well.
 pub struct ABuf {
-    raw: Vec<u8>,
+    mem: Backing,
     off: usize,
     len: usize,
 }
+unsafe impl Send for ABuf {}
+impl Drop for ABuf {
+    fn drop(&mut self) {
+        if let Backing::Map { base, total, .. } = self.mem {
+            unsafe {
+                libc::munmap(base as *mut libc::c_void, total);
+            }
+        }
+    }
+}
 impl ABuf {
     pub fn new(len: usize, fill_seed: u64) -> Self {
-        let mut raw = vec![0u8; len + 2 * GUARD + 64];
-        Rng::new(fill_seed).fill(&mut raw);
-        let base = raw.as_ptr() as usize;
-        let off = GUARD + ((64 - ((base + GUARD) % 64)) % 64);
-        ABuf { raw, off, len }
+        let mode = guard_mode();
+        if mode == 0 {
+            let mut raw = vec![0u8; len + 2 * GUARD + 64];
+            Rng::new(fill_seed).fill(&mut raw);
+            let base = raw.as_ptr() as usize;
+            let off = GUARD + ((64 - ((base + GUARD) % 64)) % 64);
+            return ABuf { mem: Backing::Heap(raw), off, len };
+        }
+        // writable span: a whole number of pages holding a leading canary, the window and a tail shorter than 64 bytes
+        let span = (len + GUARD + 64).div_ceil(PAGE) * PAGE;
+        let total = span + 2 * PAGE;
+        let base = unsafe {
+            let p = libc::mmap(std::ptr::null_mut(), total, libc::PROT_READ | libc::PROT_WRITE, libc::MAP_PRIVATE | libc::MAP_ANONYMOUS, -1, 0);
+            assert!(p != libc::MAP_FAILED, "harness: mmap failed");
+            assert!(libc::mprotect(p, PAGE, libc::PROT_NONE) == 0);
+            assert!(libc::mprotect((p as *mut u8).add(PAGE + span) as *mut libc::c_void, PAGE, libc::PROT_NONE) == 0);
+            p as *mut u8
+        };
+        let off = if mode == 1 { (span - len) / 64 * 64 } else { 0 };
+        let mut b = ABuf { mem: Backing::Map { base, total, span }, off, len };
+        let s = b.raw_mut();
+        Rng::new(fill_seed).fill(s);
+        b
+    }
+    fn raw(&self) -> &[u8] {
+        match &self.mem {
+            Backing::Heap(v) => v,
+            Backing::Map { base, span, .. } => unsafe { std::slice::from_raw_parts(base.add(PAGE), *span) },
+        }
+    }
+    fn raw_mut(&mut self) -> &mut [u8] {
+        match &mut self.mem {
+            Backing::Heap(v) => v,
+            Backing::Map { base, span, .. } => unsafe { std::slice::from_raw_parts_mut(base.add(PAGE), *span) },
+        }
     }
     pub fn win(&self) -> &[u8] {
-        &self.raw[self.off..self.off + self.len]
+        &self.raw()[self.off..self.off + self.len]
     }
     pub fn win_mut(&mut self) -> &mut [u8] {
         let (o, l) = (self.off, self.len);
-        &mut self.raw[o..o + l]
+        &mut self.raw_mut()[o..o + l]
     }
     pub fn len(&self) -> usize {
         self.len
     }
     pub fn snapshot(&self) -> Vec<u8> {
-        self.raw.clone()
+        self.raw().to_vec()
     }
     /// true iff every byte outside the given window-relative ranges equals the snapshot
     pub fn unchanged_except(&self, snap: &[u8], ranges: &[(usize, usize)]) -> bool {
-        let mut mask = vec![false; self.raw.len()];
+        let raw = self.raw();
+        let mut mask = vec![false; raw.len()];
         for &(s, e) in ranges {
             for m in mask[self.off + s..self.off + e].iter_mut() {
                 *m = true;
             }
         }
-        self.raw.iter().zip(snap.iter()).zip(mask.iter()).all(|((a, b), m)| *m || a == b)
+        raw.iter().zip(snap.iter()).zip(mask.iter()).all(|((a, b), m)| *m || a == b)
     }
 }
 
